@@ -613,4 +613,42 @@ def Bitboard.generate_pseudo_legal_non_quiescent_moves_with_buffer (white : Inka
   let result ← Bitboard.pawn_moves white black turn en_passant_square_shift halfmove_clock result true (← PlayerState.pawns active.occupancy) full_occupancy fuel
   pure result
 
+/-- `fn generate_pseudo_legal_moves(&self) -> Vec<Move>` in `impl Bitboard` (board/src/board.rs:273).
+* `white` = field `self.white: PlayerState`
+* `black` = field `self.black: PlayerState`
+* `turn` = field `self.turn: u32`
+* `en_passant_square_shift` = field `self.en_passant_square_shift: u32`
+* `halfmove_clock` = field `self.halfmove_clock: u32`
+* `ROOK_MAGICS_get_attacks` = OPAQUE associated function `Self::ROOK_MAGICS_get_attacks`
+* `BISHOP_MAGICS_get_attacks` = OPAQUE associated function `Self::BISHOP_MAGICS_get_attacks`
+* `KNIGHT_NONMAGICS_get_attacks` = OPAQUE associated function `Self::KNIGHT_NONMAGICS_get_attacks`
+* `KING_NONMAGICS_get_attacks` = OPAQUE associated function `Self::KING_NONMAGICS_get_attacks`
+* `WHITE_PAWN_NONMAGICS_get_attacks` = OPAQUE associated function `Self::WHITE_PAWN_NONMAGICS_get_attacks`
+* `BLACK_PAWN_NONMAGICS_get_attacks` = OPAQUE associated function `Self::BLACK_PAWN_NONMAGICS_get_attacks`
+* `fuel` = loop fuel (one unit per loop iteration)
+`none` = panic (or out of fuel). -/
+def Bitboard.generate_pseudo_legal_moves (white : Inkayaku.Rs.PlayerState) (black : Inkayaku.Rs.PlayerState) (turn : Int) (en_passant_square_shift : Int) (halfmove_clock : Int) (ROOK_MAGICS_get_attacks : Int → UInt64 → UInt64) (BISHOP_MAGICS_get_attacks : Int → UInt64 → UInt64) (KNIGHT_NONMAGICS_get_attacks : Int → UInt64) (KING_NONMAGICS_get_attacks : Int → UInt64) (WHITE_PAWN_NONMAGICS_get_attacks : Int → UInt64) (BLACK_PAWN_NONMAGICS_get_attacks : Int → UInt64) (fuel : Nat) : Option (List (UInt64 × Int)) := do
+  let buffer : List _ := []
+  let buffer ← Bitboard.generate_pseudo_legal_moves_with_buffer white black turn en_passant_square_shift halfmove_clock buffer ROOK_MAGICS_get_attacks BISHOP_MAGICS_get_attacks KNIGHT_NONMAGICS_get_attacks KING_NONMAGICS_get_attacks WHITE_PAWN_NONMAGICS_get_attacks BLACK_PAWN_NONMAGICS_get_attacks fuel
+  pure buffer
+
+/-- `fn generate_pseudo_legal_non_quiescent_moves(&self) -> Vec<Move>` in `impl Bitboard` (board/src/board.rs:301).
+* `white` = field `self.white: PlayerState`
+* `black` = field `self.black: PlayerState`
+* `turn` = field `self.turn: u32`
+* `en_passant_square_shift` = field `self.en_passant_square_shift: u32`
+* `halfmove_clock` = field `self.halfmove_clock: u32`
+* `ROOK_MAGICS_get_attacks` = OPAQUE associated function `Self::ROOK_MAGICS_get_attacks`
+* `BISHOP_MAGICS_get_attacks` = OPAQUE associated function `Self::BISHOP_MAGICS_get_attacks`
+* `KNIGHT_NONMAGICS_get_attacks` = OPAQUE associated function `Self::KNIGHT_NONMAGICS_get_attacks`
+* `KING_NONMAGICS_get_attacks` = OPAQUE associated function `Self::KING_NONMAGICS_get_attacks`
+* `WHITE_PAWN_NONMAGICS_get_attacks` = OPAQUE associated function `Self::WHITE_PAWN_NONMAGICS_get_attacks`
+* `BLACK_PAWN_NONMAGICS_get_attacks` = OPAQUE associated function `Self::BLACK_PAWN_NONMAGICS_get_attacks`
+* `fuel` = loop fuel (one unit per loop iteration)
+`none` = panic (or out of fuel). -/
+def Bitboard.generate_pseudo_legal_non_quiescent_moves (white : Inkayaku.Rs.PlayerState) (black : Inkayaku.Rs.PlayerState) (turn : Int) (en_passant_square_shift : Int) (halfmove_clock : Int) (ROOK_MAGICS_get_attacks : Int → UInt64 → UInt64) (BISHOP_MAGICS_get_attacks : Int → UInt64 → UInt64) (KNIGHT_NONMAGICS_get_attacks : Int → UInt64) (KING_NONMAGICS_get_attacks : Int → UInt64) (WHITE_PAWN_NONMAGICS_get_attacks : Int → UInt64) (BLACK_PAWN_NONMAGICS_get_attacks : Int → UInt64) (fuel : Nat) : Option (List (UInt64 × Int)) := do
+  let buffer : List _ := []
+  let buffer ← Bitboard.generate_pseudo_legal_non_quiescent_moves_with_buffer white black turn en_passant_square_shift halfmove_clock buffer ROOK_MAGICS_get_attacks BISHOP_MAGICS_get_attacks KNIGHT_NONMAGICS_get_attacks KING_NONMAGICS_get_attacks WHITE_PAWN_NONMAGICS_get_attacks BLACK_PAWN_NONMAGICS_get_attacks fuel
+  pure buffer
+
 end Inkayaku.Rs
